@@ -1637,7 +1637,6 @@ def Op.extOk : Op → Prop
 def Op.isV2Close : Op → Bool
   | .v2SurplusClose .. => true
   | .v2DebtClose .. => true
-  | .v2Penalty .. => true
   | _ => false
 
 /-- `DecreaseNetFeeCollectedData` called on its own (the coins are moved by its caller, outside this op). -/
@@ -1669,7 +1668,8 @@ theorem step_inv {s s' : State} {op : Op} (hL : LInv s) (hC : CInvD D s) (hext :
   | surplusFund a b u x => have := surplusFund_inv hL hC h; exact ⟨this.1, this.2.1, fun _ _ => this.2.2⟩
   | v2SurplusClose a b u x => simp [Op.isV2Close] at hv2
   | v2DebtClose a b c d => simp [Op.isV2Close] at hv2
-  | v2Penalty a b c d => simp [Op.isV2Close] at hv2
+  | v2Penalty a b c d =>
+    have := penalty_inv (app := a) (asset := c) (x := d) hL hC h; exact ⟨this.1, this.2.1, fun _ _ => this.2.2⟩
   | config c =>
     simp only [step] at h; simp at h; subst h
     have := config_inv (D := D) c hL hC; exact ⟨this.1, this.2.1, fun _ _ => this.2.2⟩
@@ -1763,7 +1763,6 @@ second time and books it as income (2·lot); a second-generation debt close book
 def Op.dmg : Op → Nat → Int
   | .v2SurplusClose _ b _ lot => fun a => if a = b then (if 0 ≤ lot then 2 * lot else 0) else 0
   | .v2DebtClose _ b c d => fun a => if a = b then (if 0 ≤ c - d then c - d else 0) else 0
-  | .v2Penalty _ coll _ x => fun a => if a = coll then (if 0 ≤ x then x else 0) else 0
   | _ => fun _ => 0
 
 theorem Op.dmg_nonneg (op : Op) (a : Nat) : 0 ≤ op.dmg a := by
@@ -1848,40 +1847,6 @@ theorem v2DebtClose_inv {s s' : State} {app asset : Nat} {c d : Int} (hL : LInv 
       intro a; simp only [Op.dmg]
       by_cases ha : a = asset <;> simp [ha]
 
-/-- the second-generation liquidation penalty: coins of the debt asset arrive, the record of the COLLATERAL asset rises -/
-theorem v2Penalty_inv {s s' : State} {app coll debt : Nat} {x : Int} (hL : LInv s) (hC : CInvD D s)
-    (h : step s (.v2Penalty app coll debt x) = some s') :
-    LInv s' ∧ CInvD (fun a => D a + (Op.v2Penalty app coll debt x).dmg a) s' := by
-  simp only [step] at h
-  cases h1 : (if x > 0 then creditCollector s debt x else some s) with
-  | none => simp [h1] at h
-  | some s1 =>
-    simp only [h1, Option.bind_some] at h
-    obtain ⟨hb, hf, hlo, hlk, hid⟩ := creditIf_spec h1
-    obtain ⟨hx, hs'⟩ := setNetFee_spec h
-    have hf0 := fee_nonneg hC (app, coll)
-    subst hs'
-    refine ⟨?_, ⟨?_, ?_⟩⟩
-    · exact hL.frameB hlo hlk hid (by intro d; show s1.bank.bal _ _ = _; rw [hb]; simp)
-    · show ∀ p ∈ Store.put s1.fees _ _, _
-      rw [hf, fee_congr hf]; exact nonneg_put hC.nonneg (by omega)
-    · intro a
-      have h0 := hC.custody a
-      unfold bal at h0 ⊢
-      show feeAsset a (Store.put s1.fees _ _) ≤ s1.bank.bal _ _ + _
-      rw [hf, fee_congr hf, feeAsset_put, hb]
-      unfold fee
-      simp only [Op.dmg]
-      by_cases ha : coll = a
-      · subst ha
-        by_cases hd : debt = coll
-        · simp [hd, hx]; split <;> omega
-        · simp [hd, hx]; omega
-      · have ha' : ¬ a = coll := fun e => ha e.symm
-        by_cases hd : debt = a
-        · simp [ha, ha', hd]; split <;> omega
-        · simp [ha, ha', hd]; omega
-
 /-- every operation: the locker books stay exact; the collector books lose at most `op.dmg`. -/
 theorem step_invD {s s' : State} {op : Op} (hL : LInv s) (hC : CInvD D s) (hext : op.extOk)
     (h : step s op = some s') : LInv s' ∧ CInvD (fun a => D a + op.dmg a) s' := by
@@ -1891,7 +1856,6 @@ theorem step_invD {s s' : State} {op : Op} (hL : LInv s) (hC : CInvD D s) (hext 
   · cases op <;> simp [Op.isV2Close] at hv2
     · exact v2SurplusClose_inv hL hC h
     · exact v2DebtClose_inv hL hC h
-    · exact v2Penalty_inv hL hC h
 
 /-! ## the two closes after the proposed repair -/
 
